@@ -1749,6 +1749,24 @@ def cross_C19(lines, outs, models=None):
     # unit-introspection API: documented to answer differently with checking off (`eq_assume_true` is constantly true,
     # `assert_eq_assume_not_ok` always panics): not numeric results of a program
     INTROSPECT = ("q uanok", "q ueqt", "q ueqf", "q uceq", "q ucaeq", "q uaok")
+    # families (group + op) whose behaviour differs from the model in the SAME way in every configuration on lines that the checked
+    # build accepts: a change that is uniform across configurations belongs to the property owning that behaviour, not to C19; on
+    # such a family the model cannot serve as the reference for "plain arithmetic on the values" of ill-dimensioned lines
+    drifting = set()
+    if models:
+        for k, c in enumerate(lines):
+            fam = " ".join(c.split(" ")[:2])
+            if fam in drifting:
+                continue
+            for n in names:
+                if k < len(outs[n]) and k < len(models.get(n, [])) and "PANIC" not in outs[n][k] and outs[n][k] not in ("NOIMPL", "BADLINE"):
+                    if compare_lines(strip_units(outs[n][k]), strip_units(models[n][k]), {"cat", "time", "float"}, None, True)[0] == "hard" \
+                       and "PANIC:dim" not in models[n][k] and not (c.startswith(POWF_LINE) and config_tol_C19(n, c) is not None):
+                        ref0 = outs[names[0]][k] if k < len(outs[names[0]]) else ""
+                        if all(k < len(outs[m]) and compare_lines(strip_units(outs[m][k]), strip_units(ref0), {"cat", "time", "float"}, None, True)[0] != "hard"
+                               for m in names):
+                            drifting.add(fam)
+                            break
     for k, c in enumerate(lines):
         row = {n: outs[n][k] for n in names if k < len(outs[n])}
         if any(o in ("NOIMPL", "BADLINE") for o in row.values()):
@@ -1759,21 +1777,37 @@ def cross_C19(lines, outs, models=None):
             us = _units_of(c)
             if len(us) == 2 and us[0] != us[1]:
                 continue        # `==` on different units: ill-dimensioned, and documented to ignore units when unchecked
+        ref_name = chk_cfgs[0] if chk_cfgs else names[0]
+        ref = row[ref_name]
+        # ill-dimensioned: the MODEL of the checked build says "dimension panic" (robust against a reworded assertion message
+        # in the crate, which would change the harness's panic kind), or the checked build rejects
+        mref = (models or {}).get(ref_name, [])
+        mref = mref[k] if k < len(mref) else ""
+        ill = "PANIC:dim" in ref or ("PANIC:dim" in mref and "PANIC" in ref) or " err" in (" " + ref) or ref.startswith("err")
         for n in names:
             if c.startswith(POWF_LINE) and config_tol_C19(n, c) == "skip":
                 continue
-            if n not in chk_cfgs and "PANIC:dim" in row[n]:
+            mn = (models or {}).get(n, [])
+            mn = mn[k] if k < len(mn) else ""
+            if n not in chk_cfgs and ("PANIC:dim" in row[n] or (ill and "PANIC" in row[n] and "PANIC" not in mn)):
                 bad.append((c, "dimension panic in the unchecked configuration %s" % n))
-        ref_name = chk_cfgs[0] if chk_cfgs else names[0]
-        ref = row[ref_name]
-        ill = "PANIC:dim" in ref or " err" in (" " + ref) or ref.startswith("err")
         if ill:
             # every configuration that has checking compiled in must refuse the same ill-dimensioned program
             for n in chk_cfgs:
                 if n != ref_name and compare_lines(strip_units(row[n]), strip_units(ref), {"cat", "time", "float"}, None, True)[0] == "hard":
                     bad.append((c, "checked configuration %s accepts / answers differently from checked configuration %s: %s vs %s"
                                 % (n, ref_name, row[n][:80], ref[:80])))
-            if models:
+            unchk = [n for n in names if n not in chk_cfgs]
+            # the unchecked builds must agree with each other on an ill-dimensioned program (values, timestamps) ...
+            for n in unchk[1:]:
+                if c.startswith(POWF_LINE) and (config_tol_C19(n, c) is not None or config_tol_C19(unchk[0], c) is not None):
+                    continue
+                if compare_lines(strip_units(row[n]), strip_units(row[unchk[0]]), {"cat", "time", "float"}, None, True)[0] == "hard":
+                    bad.append((c, "unchecked configurations %s and %s answer an ill-dimensioned program differently: %s vs %s"
+                                % (n, unchk[0], row[n][:80], row[unchk[0]][:80])))
+            # ... and compute the plain arithmetic on the values = the model with checking off (unless this family's behaviour
+            # differs from the model uniformly in every configuration, see `drifting`)
+            if models and " ".join(c.split(" ")[:2]) not in drifting:
                 for n in names:
                     if n in chk_cfgs or k >= len(models.get(n, [])):
                         continue
